@@ -24,6 +24,11 @@ CNOTE = ("Bounded: schedules with at most 2 (quick) / 3 (thorough) preemptions a
 CTECH = ("explicit TLA+ specs: lock-operation-level L1 design model (SinkConc / SubjectConc, PlusCal or TLA+) model-checked by TLC for the property; the real crate executed under a controlled "
          "scheduler over all bounded-preemption schedules; every distinct recorded trace judged by TLC trace validation against the L2 monitors of ConcProps (ConcTrace)")
 CONC = {
+ 'C08': ("TLC checks the lock-operation-level model SchedQueue (scheduling / post / stop with spurious wake-ups, abort from inside a task; FIFO, at most once, one at a time, nothing taken after abort returned as invariants; no lost wake-up and worker exit as leads-to properties under weak fairness, deadlock check on); the real NewThreadScheduler / DefaultScheduler are driven by 1-3 posting threads, aborts from threads and from inside tasks, tasks that post, under every schedule within the preemption bound, and every trace is validated by TLC against the queue monitor (real-time FIFO order, quiescence: worker exited iff aborted, else parked with every task run)", '6 C08'),
+ 'C09': ("TLC checks SchedQueue in the hand-off configuration (one poster, abort issued from inside the last task = on_finalize); observe_on at every position of a short pipeline and stacked twice, and subscribe_on, are executed with an emitting thread and an optional unsubscribing thread under every schedule within the bound; TLC validates each trace: delivered = emitted (prefix when unsubscribed), terminal last, one worker thread that is neither emitter nor subscriber, callbacks never overlap, nothing whose emission started after unsubscribe returned", '6 C09'),
+ 'C15': ("thread lifecycle events (spawn / exit with virtual time) of the controlled runtime are validated by TLC: for every thread-creating operator x terminating cause (complete, error, unsubscribe, take / first / take_until / amb downstream) every library thread has exited at quiescence, at most one timer period after the subscription ended; TLC checks WorkerExitsAfterAbort on SchedQueue", '6 C15'),
+ 'C16': ("(virtual time, event) traces of interval / timer / delay / timeout / debounce / sample over a grid of periods and gap scripts, under every schedule within the bound, are validated by TLC against the timed definitions of the statement (L2 only: the timed behaviour is decided on recorded traces; no separate design model)", '6 C16'),
+ 'C18': ("TLC checks the lock-level model ToVec (poll || source: never ready before the terminal, EventuallyReady under weak fairness = no lost wake-up, result = items in order or the error); the real future is driven by a minimal executor built on the facade primitives with the source on another thread under every schedule within the bound and each trace is validated by TLC", '6 C18'),
  'C11': ("TLC checks the lock-level design model of the subscriber slots / controller under racing emitters; the real merge / flat_map / zip / concat / amb (with and without take downstream) are executed with 2-3 emitting threads under every schedule within the preemption bound and each trace is validated by TLC: item conservation, per-input order, tuple pairing, one winner for amb, take(n) <= n, exactly one complete after the last item, never two terminals", '6 C11'),
  'C12': ("TLC checks the lock-level design model SubjectConc (producer / late subscriber / unsubscriber on plain, Behavior and Replay subjects: no duplicate, no gap, order); the real subjects are executed with 1-2 producer threads, a subscribing and an unsubscribing thread under every schedule within the bound and each trace is validated by TLC", '6 C12'),
  'C19': ("TLC checks the lock-level design model SinkConc for all scripts of 2-3 threads (at most one terminal, nothing whose delivery started after the terminal returned, exactly one terminal survives a race); every multi-input operator and the four subject types are executed with racing terminals / items under every schedule within the bound and each trace is validated by TLC", '6 C19'),
